@@ -666,7 +666,19 @@ func (f *Focus) allegation(v *View) []txgen.Tx {
 		accs = append(accs, r.Addr)
 	}
 	var acc string
-	if len(accs) > 0 && !f.pct(5, "acc-hostile") {
+	twice := false
+	if len(f.opened) > 0 && f.pct(15, "acc-twice") {
+		// a second report against a validator already reported in this block (the duplicate check of the
+		// handler reads committed requests only): both are meant to reach their verdict together
+		prev := f.opened[f.rng(0, len(f.opened)-1, "acc-twice-which")]
+		if prev.accused != rep.Key.Addr.String() && f.valByAddr(prev.accused) != nil {
+			acc, twice = prev.accused, true
+			tags = append(tags, "same-accused-twice-in-block")
+			f.intent[prev.id] = 1
+		}
+	}
+	if twice {
+	} else if len(accs) > 0 && !f.pct(5, "acc-hostile") {
 		acc = accs[f.rng(0, len(accs)-1, "acc")]
 	} else {
 		r := recs[f.rng(0, len(recs)-1, "acc-any")]
@@ -697,6 +709,10 @@ func (f *Focus) allegation(v *View) []txgen.Tx {
 	}
 	tx := txgen.Allegation(signer, id, rep.Key.Addr, accV.Key.Addr, bh, "proof", f.W.Fee, f.W.Memo())
 	tx.Tags = tags
+	if twice {
+		f.intent[id] = 1
+		f.Feat["same-accused-reported-twice-in-one-block"]++
+	}
 	if f.intent[id] == 0 {
 		f.intent[id] = int8(sample(f.u(), []int{1, 1, 1, 2, 2, 3}, "intent"))
 	}
